@@ -1,0 +1,98 @@
+//go:build verif
+
+package align
+
+// Contracts for property C12 (cleaning). Comments only; compiled (to nothing)
+// only under the build tag "verif". Shared vocabulary (nrows, cell, wfa, excl,
+// wildcard, ...) is in zz_contracts_verif.go; crinset/crmatch in gutils.
+
+// ---- the removal rule of the property statement ----
+
+// row r matches at column s: its residue is one of the characters c (optionally case-folded), or is none of them when the selection is inverted
+//@ pure func cs_sel(a *align, c []uint8, ic bool, rev bool, r int, s int) bool = crinset(c, len(c), cell(a, r, s), ic) != rev
+// number of matching rows among the first n rows at column s
+//@ pure func cs_cnt(a *align, c []uint8, ic bool, rev bool, s int, n int) int = (n <= 0 ? 0 : cs_cnt(a, c, ic, rev, s, n-1) + (cs_sel(a, c, ic, rev, n-1, s) ? 1 : 0))
+// number of rows among the first n that are not excluded by ignore-gaps / ignore-N-or-X (wildcard of the alignment's OWN alphabet, both cases)
+//@ pure func cs_tot(a *align, ig bool, ign bool, s int, n int) int = (n <= 0 ? 0 : cs_tot(a, ig, ign, s, n-1) + (excl(a, ig, ign, cell(a, n-1, s)) ? 0 : 1))
+// a cutoff outside [0,1] counts as 0
+//@ pure func cs_cut(cutoff real) real = (cutoff < 0.0 || cutoff > 1.0 ? 0.0 : cutoff)
+// removal rule: fraction n/t at least the cutoff (as n >= cutoff*t: no division), or n > 0 when the cutoff is 0
+//@ pure func cs_rule(cut real, n int, t int) bool = (cut > 0.0 && real(n) >= cut * real(t)) || (cut == 0.0 && n > 0)
+// column s qualifies for removal
+//@ opaque func cs_hit(a *align, c []uint8, cutoff real, ic bool, ig bool, ign bool, rev bool, s int) bool = cs_rule(cs_cut(cutoff), cs_cnt(a, c, ic, rev, s, nrows(a)), cs_tot(a, ig, ign, s, nrows(a)))
+
+
+
+//@ func (*align).RemoveCharacterSites
+//@   props C12
+//@   requires wfa(a)
+// first / last: lengths of the maximal qualifying prefix / suffix (cs_hit is the removal rule of the property statement)
+//@   ensures 0 <= first && first <= max(old(a.length), 0) && (forall k :: 0 <= k && k < first ==> old(cs_hit(a, c, cutoff, ignoreCase, ignoreGaps, ignoreNs, reverse, k))) && (first < old(a.length) ==> !old(cs_hit(a, c, cutoff, ignoreCase, ignoreGaps, ignoreNs, reverse, first)))
+//@   ensures 0 <= last && last <= max(old(a.length), 0) && (forall k :: old(a.length) - last <= k && k < old(a.length) ==> old(cs_hit(a, c, cutoff, ignoreCase, ignoreGaps, ignoreNs, reverse, k))) && (last < old(a.length) ==> !old(cs_hit(a, c, cutoff, ignoreCase, ignoreGaps, ignoreNs, reverse, old(a.length) - last - 1)))
+// frame: same rows, same names, same order; only the residues and the cached length change
+//@   ensures nrows(a) == old(nrows(a)) && a.length <= old(a.length) && old(a.length) - max(old(a.length), 0) <= a.length
+//@   ensures forall r :: 0 <= r && r < nrows(a) ==> row(a, r) == old(row(a, r)) && rowname(a, r) == old(rowname(a, r))
+//@   modifies a.length, field(seq.sequence)
+//@   loop 1
+//@     invariant lenBk == a.length && 0 <= site && site <= max(a.length, 0)
+//@     invariant -1 <= firstcontinuous && firstcontinuous < site
+//@     invariant forall k :: 0 <= k && k <= firstcontinuous ==> old(cs_hit(a, c, cutoff, ignoreCase, ignoreGaps, ignoreNs, reverse, k))
+//@     invariant firstcontinuous + 1 < site ==> !old(cs_hit(a, c, cutoff, ignoreCase, ignoreGaps, ignoreNs, reverse, firstcontinuous + 1))
+//@     invariant (lastcontinuous == a.length && (site == 0 || !old(cs_hit(a, c, cutoff, ignoreCase, ignoreGaps, ignoreNs, reverse, site - 1)))) || (0 <= lastcontinuous && lastcontinuous < site && (forall k :: lastcontinuous <= k && k < site ==> old(cs_hit(a, c, cutoff, ignoreCase, ignoreGaps, ignoreNs, reverse, k))) && (lastcontinuous == 0 || !old(cs_hit(a, c, cutoff, ignoreCase, ignoreGaps, ignoreNs, reverse, lastcontinuous - 1))))
+//@     invariant fresh(toremove) && 0 <= len(toremove) && len(toremove) <= site
+//@     decreases a.length - site
+//@   loop 2
+//@     invariant 0 <= site && site < a.length && 0 <= seq && seq <= nrows(a)
+//@     invariant nbchars == old(cs_cnt(a, c, ignoreCase, reverse, site, seq)) && total == old(cs_tot(a, ignoreGaps, ignoreNs, site, seq))
+//@     decreases nrows(a) - seq
+//@   loop 3
+//@     invariant 0 <= seq && seq <= nrows(a) && 0 <= nbremoved && nbremoved <= max(a.length, 0) && fresh(kept) && fresh(rm)
+//@     invariant forall r :: seq <= r && r < nrows(a) ==> sameslice(row(a, r).sequence, old(row(a, r).sequence))
+//@     decreases nrows(a) - seq
+//@   loop 4
+//@     invariant 0 <= i && i <= a.length && 0 <= seq && seq < nrows(a)
+//@     invariant 0 <= nbpotentialremove && 0 <= nbremoved && nbremoved <= i && fresh(kept) && fresh(rm) && fresh(newseq)
+//@     invariant forall r :: seq <= r && r < nrows(a) ==> sameslice(row(a, r).sequence, old(row(a, r).sequence))
+//@     decreases a.length - i
+
+// RemoveGapSites = RemoveCharacterSites([]uint8{GAP}, cutoff, ends, false, false, false, false). Thin contract (safety and frame);
+// the semantic clauses are those of RemoveCharacterSites with c = {'-'} (the slice literal is local to the wrapper, so they are
+// not restated here).
+//@ func (*align).RemoveGapSites
+//@   props C12
+//@   requires wfa(a)
+//@   ensures 0 <= first && first <= max(old(a.length), 0) && 0 <= last && last <= max(old(a.length), 0)
+//@   ensures nrows(a) == old(nrows(a)) && a.length <= old(a.length)
+//@   ensures forall r :: 0 <= r && r < nrows(a) ==> row(a, r) == old(row(a, r)) && rowname(a, r) == old(rowname(a, r))
+//@   modifies a.length, field(seq.sequence)
+
+// ---- sequences ----
+
+// row r matches at column s (single character c, optional case folding; no inverted selection for sequences)
+//@ pure func cq_sel(sq *seq, c int, ic bool, s int) bool = sq.sequence[s] == c || (ic && lower(sq.sequence[s]) == lower(c))
+// number of matching columns among the first n columns of the row
+//@ pure func cq_cnt(sq *seq, c int, ic bool, n int) int = (n <= 0 ? 0 : cq_cnt(sq, c, ic, n-1) + (cq_sel(sq, c, ic, n-1) ? 1 : 0))
+// number of columns among the first n that are not excluded by ignore-gaps / ignore-N-or-X of the alignment's own alphabet
+//@ pure func cq_tot(a *align, sq *seq, ig bool, ign bool, n int) int = (n <= 0 ? 0 : cq_tot(a, sq, ig, ign, n-1) + (excl(a, ig, ign, sq.sequence[n-1]) ? 0 : 1))
+
+//@ func (*align).RemoveCharacterSeqs
+//@   props C12
+//@   requires wfa(a)
+//@   ensures wfa(a) && 0 <= result && result <= old(nrows(a)) && a.alphabet == old(a.alphabet)
+//@   modifies a.seqs, a.seqmap, a.length
+//@   loop 1
+//@     invariant wfa(a) && fresh(a.seqs) && fresh(a.seqmap) && a.alphabet == old(a.alphabet) && sameslice(oldseqs, old(a.seqs)) && length == old(a.length)
+//@     invariant 0 <= nbremoved && nbremoved <= $i
+//@     invariant all == wildcard(a) && allc == low8(wildcard(a))
+//@     decreases len(oldseqs) - $i
+//@   loop 2
+//@     invariant 0 <= site && site <= max(length, 0) && seq == old(row(a, $i1 - 1)) && 0 <= $i1 - 1 && $i1 - 1 < old(nrows(a))
+//@     invariant nbseqs == old(cq_cnt(row(a, $i1 - 1), c, ignoreCase, site)) && total == old(cq_tot(a, row(a, $i1 - 1), ignoreGaps, ignoreNs, site))
+//@     decreases length - site
+
+// RemoveGapSeqs = RemoveCharacterSeqs(GAP, cutoff, false, false, ignoreNs): thin contract
+//@ func (*align).RemoveGapSeqs
+//@   props C12
+//@   requires wfa(a)
+//@   ensures wfa(a) && 0 <= result && result <= old(nrows(a)) && a.alphabet == old(a.alphabet)
+//@   modifies a.seqs, a.seqmap, a.length
